@@ -1,3 +1,4 @@
+import Cctp.Spec.Toy
 import Cctp.Props.C17
 /-
   C18 — execution is deterministic and depends only on chain state.   (PARTIAL, level "other")
@@ -114,5 +115,12 @@ theorem simulations_leave_no_trace (ext : Ext) (cfg : Cfg) (steps : List Step) (
 /-- … and a simulation predicts the delivery that follows it exactly. -/
 theorem simulation_predicts (ext : Ext) (cfg : Cfg) (w : World) (f : List Bool) (m : Msg) :
     simulate ext cfg w f m = (deliver ext cfg (stepWorld ext cfg w (.simulate f m)) f m).2 := rfl
+
+/-! non-vacuity: a concrete interleaving -- a simulated receive, the same receive delivered, a simulated deposit that is
+    never delivered -- ends in the state of the one delivery alone -/
+example : [Step.simulate [] Toy.receive, .deliver [] Toy.receive, .simulate [] Toy.deposit].foldl (stepWorld Toy.ext Toy.cfg) Toy.world =
+    (deliver Toy.ext Toy.cfg Toy.world [] Toy.receive).1 := by
+  rw [simulations_leave_no_trace]
+  simp only [delivered, runState, run]
 
 end Cctp.C18
